@@ -165,7 +165,7 @@ class SMMapSetMeta:
             f"#BPMS:"
             + ",\n".join(
                 [
-                    f"{round(float(beat), 2)}={bpm.bpm}"
+                    f"{round(float(beat), 6)}={bpm.bpm}"
                     for beat, bpm in zip(bpm_beats, self[0].bpms)
                 ]
             )
